@@ -7,6 +7,7 @@ independently of Spyne's own validation schema; (b) every request Spyne's own cl
 response its server emits for conformant values is validated against that compiled schema; (c) for the boundary /
 near-boundary / ill-formed documents of the C05 facet lattice the server is run once with validator='lxml' and once
 with validator='soft' and the two verdicts must agree for every constraint both implement."""
+import itertools
 import json
 
 from lxml import etree
@@ -36,12 +37,17 @@ def schema_programs():
     A = {'n': 'A', 'ns': 'urn:vf:a', 'fields': [['x', I], ['when', ['p', 'DateTime', {}]]]}
     B = {'n': 'B', 'ns': 'urn:vf:a', 'base': 'A', 'fields': [['y', U]]}
     C = {'n': 'C', 'ns': 'urn:vf:c', 'fields': [['a', ['c', 'A', {}]], ['bs', ['a', ['c', 'B', {}], {}]], ['n', ['p', 'Int', {'ge': 0, 'le': 9}]]]}
-    Dd = {'n': 'D', 'fields': [['c', ['c', 'C', {}]], ['k', ['xa', ['p', 'Unicode', {'min_occurs': 1}]]], ['o', ['xa', I]], ['e', ['e', 'Color', {}]]]}
+    # types of foreign namespaces that point back at a type of the target namespace (member, base class)
+    T0 = {'n': 'T0', 'fields': [['t', I]]}
+    Eb = {'n': 'Eb', 'ns': 'urn:vf:e', 'fields': [['d0', ['c', 'T0', {}]], ['u', U]]}
+    Fb = {'n': 'Fb', 'ns': 'urn:vf:f', 'base': 'T0', 'fields': [['w', U]]}
+    Dd = {'n': 'D', 'fields': [['c', ['c', 'C', {}]], ['k', ['xa', ['p', 'Unicode', {'min_occurs': 1}]]], ['o', ['xa', I]], ['e', ['e', 'Color', {}]],
+                              ['eb', ['c', 'Eb', {}]], ['fb', ['c', 'Fb', {}]]]}
     m = {'n': 'm', 'args': [['d', ['c', 'D', {}]], ['z', I]], 'ret': ['c', 'D', {}]}
     import datetime
     v = Obj('D', c=Obj('C', a=Obj('A', x=1, when=datetime.datetime(2020, 1, 2, 3, 4, 5, tzinfo=tagged.tz(0))),
-                       bs=[Obj('B', x=2, when=None, y='q')], n=5), k='key', o=3, e='red')
-    out.append(('three-namespaces', {'tns': TNS, 'enums': universe.ENUMS, 'classes': [A, B, C, Dd], 'services': [{'n': 'S', 'methods': [m]}]}, [[v, 7]]))
+                       bs=[Obj('B', x=2, when=None, y='q')], n=5), k='key', o=3, e='red', eb=Obj('Eb', d0=Obj('T0', t=1), u='you'), fb=Obj('Fb', t=2, w='dubya'))
+    out.append(('three-namespaces', {'tns': TNS, 'enums': universe.ENUMS, 'classes': [A, B, C, T0, Eb, Fb, Dd], 'services': [{'n': 'S', 'methods': [m]}]}, [[v, 7]]))
     # named simple types in a namespace of their own; members that use them as they are and members that restrict them
     # further (the restriction is published in the namespace of the class, its base in the namespace of the named type)
     simples = {'Code': {'p': 'Unicode', 'attrs': {'max_len': 8}, 'type_name': 'Code', 'ns': 'urn:vf:types'},
@@ -61,6 +67,15 @@ def schema_programs():
     mn = {'n': 'm', 'args': [['i', ['c', 'Item', {}]], ['j', ['c', 'Item2', {}]], ['k', ['c', 'Item3', {}]]], 'ret': ['c', 'Item', {}]}
     out.append(('named-simple-types', {'tns': TNS, 'simples': simples, 'enums': {'Shade': ['light', 'dark']}, 'classes': [Item, Item2, Item3], 'services': [{'n': 'S', 'methods': [mn]}]},
                 [[Obj('Item', code='abc', n=1), Obj('Item2', c='x', s=50, l='y', ca='zz', a1=1, a2='dark', a3=7, a4=5), Obj('Item3', s=99, cs=['ab', 'cdefgh'])]]))
+    # bare / out_bare methods: every combination of nillable / non-nillable argument and result; a nillable result is None
+    for style in ('bare', 'out_bare'):
+        for an, rn in itertools.product((True, False), repeat=2):
+            at = ['p', 'Integer', {} if an else {'nillable': False}]
+            rt = ['p', 'Unicode', {} if rn else {'nillable': False}]
+            mb = {'n': 'm', 'args': [['a', at]], 'ret': rt, 'kw': {'_body_style': style}}
+            out.append(('%s-arg-%s-ret-%s' % (style, 'nillable' if an else 'mandatory', 'nillable' if rn else 'mandatory'),
+                        {'tns': TNS, 'classes': [], 'services': [{'n': 'S', 'methods': [mb]}]},
+                        [{'args': [3], 'ret': None if rn else 'text'}, {'args': [3], 'ret': 'text'}]))
     X = {'n': 'X', 'fields': [['t', ['xd', U]], ['lang', ['xa', U]]]}
     m2 = {'n': 'm', 'args': [['x', ['c', 'X', {}]], ['z', I]], 'ret': ['c', 'X', {}]}
     out.append(('xmldata', {'tns': TNS, 'classes': [X], 'services': [{'n': 'S', 'methods': [m2]}]}, [[Obj('X', t='text', lang='en'), 1]]))
@@ -302,7 +317,7 @@ def run_shard(shard, only=None):
     elif k == 'S':
         name, program, argsl = schema_programs()[shard['i']]
         res['cov']['programs'] += 1
-        cases = [('v%d' % i, a, a[0], None, None) for i, a in enumerate(argsl)]
+        cases = [('v%d' % i, a['args'], a['ret'], None, None) if isinstance(a, dict) else ('v%d' % i, a, a[0], None, None) for i, a in enumerate(argsl)]
         emitted_documents(program, cases, res, 'S|' + name, {'shard': shard}, tier)
     elif k == 'V':
         fid, t, vals = c05.facets(tier)[shard['i']]
